@@ -14,9 +14,11 @@ handlers), every state, every permutation / partition / per-sub-round scheduling
 sequence of simcalls maestro answers, the whole sub-round and the whole run do not depend on that choice.
 With C49 (each element of the array is processed exactly once by the Parmap) this is C02 for the modelled round.
 NOT modelled (and so not proved): the context-switch code of the raw/boost factories, thread parking (semaphores /
-futexes), the Parmap protocol itself (C49), and the cancel loop of `cleanup_from_self`, which the real code runs in the
-dying actor's context under `destruction_mutex` (the model lets maestro run it in `actors_that_ran_` order).
-All theorems are full-strength for the model; none is `_partial`.
+futexes), the Parmap protocol itself (C49).
+The one place where the real code breaks the slice abstraction IS modelled (`Cfg.cleanupInSlice`): the cancel loop of
+`cleanup_from_self` runs in the dying actor's context, so the order between two actors that end in the same sub-round is
+the threads' order.  Consequently (a), (a'), (b) are full strength; (c)/(d) are `_partial` for today's code (FINDING
+`parallel-cleanup-cancel-order`, `cleanup_race_counterexample`) and full strength for the repaired code.
 -/
 namespace SgVerif.C02
 open SgVerif.Sched
@@ -51,14 +53,34 @@ theorem thatRan_order_fixed (s : St S) (ran π : List Aid) (hn : ran.Nodup) (h :
   rw [afterSlices_pend s π hnπ a (h.mem_iff.mpr ha)]
   rfl
 
-/-- C02(c) a whole sub-round (slices in any order, then maestro alone) equals the serial sub-round -/
-theorem subroundWith_perm (c : Cfg) (α : Addr) (s : St S) (π : List Aid) (h : π.Perm s.toRun) :
-    subroundWith c α π s = subround c α s := by
-  simp only [subround, subroundWith, afterSlices_perm _ h]
+/-- order-insensitivity of the cancel loops that the dying actors of one sub-round run in their own contexts -/
+def CleanupInsensitive (S : Sys) (c : Cfg) (α : Addr) : Prop :=
+  ∀ (s : St S) (l1 l2 : List Aid), l1.Perm l2 → selfCleanups c α s l1 = selfCleanups c α s l2
 
-/-- C02(d) `round_deterministic`: whatever order the factory / the worker threads pick in each sub-round, the run is
-    the serial run. -/
-theorem round_deterministic (c : Cfg) (α : Addr) (p : Policy) (hp : ∀ n l, (p n l).Perm l) :
+/-- C02(c) a whole sub-round (slices in any order, then maestro alone) equals the serial sub-round — provided the
+    cancel loop of `cleanup_from_self` is run by maestro (`cleanupInSlice = false`, props/C02/proposed_fix.diff) or is
+    order-insensitive. -/
+theorem subroundWith_perm (c : Cfg) (α : Addr) (hC : c.cleanupInSlice = true → CleanupInsensitive S c α)
+    (s : St S) (π : List Aid) (h : π.Perm s.toRun) : subroundWith c α π s = subround c α s := by
+  simp only [subround, subroundWith, afterSlices_perm _ h]
+  cases hc : c.cleanupInSlice with
+  | false => rfl
+  | true => simp only [if_true]; rw [hC hc _ _ _ h]
+
+/-
+Full-strength statement of C02(d), FALSE on the code as it is today (`Cfg.current.cleanupInSlice = true`):
+
+    theorem round_deterministic : ∀ (S : Sys) α p (hp : ∀ n l, (p n l).Perm l) fuel (s : St S),
+        runWith Cfg.current α p fuel s = run Cfg.current α fuel s
+
+see `cleanup_race_counterexample` (replayed on the library: corpus case `dying-owners-same-subround`, nthreads=4).
+-/
+
+/-- C02(d) `round_deterministic_partial`: whatever order the factory / the worker threads pick in each sub-round, the run
+    is the serial run — under the order-insensitivity hypothesis above when the cancel loop runs in actor context.
+    Missing for full strength on today's code: that hypothesis, which the real `cancel` does not satisfy. -/
+theorem round_deterministic_partial (c : Cfg) (α : Addr) (hC : c.cleanupInSlice = true → CleanupInsensitive S c α)
+    (p : Policy) (hp : ∀ n l, (p n l).Perm l) :
     ∀ (fuel : Nat) (s : St S), runWith c α p fuel s = run c α fuel s := by
   intro fuel
   induction fuel with
@@ -75,9 +97,25 @@ theorem round_deterministic (c : Cfg) (α : Addr) (p : Policy) (hp : ∀ n l, (p
     | cons a t =>
       simp only
       have h1 : subroundWith c α (p n (a :: t)) s = subroundWith c α (a :: t) s := by
-        have := subroundWith_perm c α s (p n (a :: t)) (hs ▸ hp n (a :: t))
+        have := subroundWith_perm c α hC s (p n (a :: t)) (hs ▸ hp n (a :: t))
         rw [this, subround, hs]
       rw [h1]; exact ih _
+
+/-- C02(d) at FULL STRENGTH for the code with props/C02/proposed_fix.diff (cancel loop run by maestro in
+    `cleanup_from_kernel`, i.e. in run-list order): no hypothesis. -/
+theorem round_deterministic_repaired (α : Addr) (p : Policy) (hp : ∀ n l, (p n l).Perm l) (fuel : Nat) (s : St S) :
+    runWith Cfg.repaired α p fuel s = run Cfg.repaired α fuel s :=
+  round_deterministic_partial Cfg.repaired α (fun h => by cases h) p hp fuel s
+
+/-- TODAY's code: actors 0 and 4 end in the same sub-round, each owning activities on which other actors are blocked.
+    If the threads run 0's slice first, maestro later sees the wake-ups 1, 2, 3; if they run 4's first, 3, 1, 2. -/
+theorem cleanup_race_counterexample :
+    (subroundWith Cfg.current Demo.layoutA [0, 4] (Demo.st0 false [0, 4])).toRun = [1, 2, 3] ∧
+    (subroundWith Cfg.current Demo.layoutA [4, 0] (Demo.st0 false [0, 4])).toRun = [3, 1, 2] := by decide
+
+/-- the same instance with the cancel loop run by maestro: both thread orders give the run-list order -/
+example : (subroundWith Cfg.repaired Demo.layoutA [0, 4] (Demo.st0 false [0, 4])).toRun = [1, 2, 3] ∧
+    (subroundWith Cfg.repaired Demo.layoutA [4, 0] (Demo.st0 false [0, 4])).toRun = [1, 2, 3] := by decide
 
 /-! non-vacuity: on the demo system, three actors run in a different order; the state really changes and both sides agree -/
 open Demo in
